@@ -236,6 +236,9 @@ detail::TypedArgBase*
    mArguments.checkArgMix( "arguments", "sub-group arguments", mSubGroupArgs);
    mDescription.addArgument( desc, arg_hdl);
 
+   if (mUsedByGroup)
+      Groups::instance().crossCheckArguments( this);
+
    return arg_hdl;
 } // Handler::addArgument
 
